@@ -33,3 +33,8 @@ Definition filter_by_set_v0 (canon : path -> option path) (files set : list path
 Definition staged_files_v0 canon (head : option (list (name * gentry))) (idx : index)
            (files : list path) : list path :=
   filter_by_set_v0 canon files (get_staged_files_v0 head idx).
+
+(* check_scan.rs before fix D105: with --files L the changed / staged set was not consulted at all *)
+Definition listed_run_v0 (R : Type) (eval : path -> option R) (canon : path -> option path)
+           (set : option (list path)) (listed : list path) : list (path * R) * unit :=
+  run_on R unit (list path) eval (fun _ => tt) listed listed.
